@@ -248,7 +248,7 @@ def make_arg(name, kind):
 
 
 def ret_z(c, v, ex, p):
-    if c.ret == 'none':
+    if c.ret in ('none', 'opaque'):
         return None
     if c.ret == 'int':
         return zint(v, ex, p, ' (return value)')
